@@ -108,8 +108,8 @@ def rules(t):
         return tot
     sizes = {}
     for v, (tag, e) in W.items():
-        if v == "SmallReliable": sizes[v] = 1 + maxsize(e, body_bound["SendChannelReliable::get_packets_to_send"])
-        elif v == "SmallUnreliable": sizes[v] = 1 + maxsize(e, body_bound["SendChannelUnreliable::get_packets_to_send"])
+        if v == "SmallReliable": sizes[v] = 1 + maxsize(e, body_bound.get("SendChannelReliable::get_packets_to_send", S + VARINT_LEN(S) + VARINT))
+        elif v == "SmallUnreliable": sizes[v] = 1 + maxsize(e, body_bound.get("SendChannelUnreliable::get_packets_to_send", S + VARINT_LEN(S)))
         elif v == "Ack": sizes[v] = 1 + maxsize(e, ((cap or 10**9) - 1) * 2 * VARINT)
         else: sizes[v] = 1 + maxsize(e, 0)
     r.samples.append(f"renet maxima {sizes}; cap {cap}")
